@@ -36,7 +36,7 @@ def sweep(tier, seed=0):
     top = 70 if tier == "quick" else 400
     pairs = [(n_new, n_old) for n_old in range(2, top) for n_new in range(1, n_old)]
     rnd = random.Random(seed)
-    big = 3000 if tier == "quick" else 200000
+    big = 3000 if tier == "quick" else 20000
     for _ in range(big):
         n_old = rnd.randrange(2, 2 ** rnd.randrange(2, 31))
         pairs.append((rnd.randrange(1, n_old), n_old))
@@ -45,11 +45,12 @@ def sweep(tier, seed=0):
         for n_new in (16417, 2425, 3, 7, n_old - 1, n_old - 21, n_old // 3):
             if 1 <= n_new < n_old:
                 pairs.append((n_new, n_old))
-    for n_new, n_old in pairs:
+    for idx, (n_new, n_old) in enumerate(pairs):
         if n_old > 3_000_000 and tier == "quick":
             continue
-        if n_new > 2_000_000:
-            n_new = n_new % 2_000_000 + 1
+        cap = 2_000_000 if idx % 100 == 0 else 50_000     # the check is linear in n_new: a few very long outputs, many moderate ones
+        if n_new > cap:
+            n_new = n_new % cap + 1
         cases += 1
         msg = check_boundaries(comp, n_new, n_old)
         if msg:
